@@ -2,6 +2,7 @@ import CkbVerif.Model.Reward
 import CkbVerif.Model.Dao
 import CkbVerif.Lemmas.Dao
 import CkbVerif.Lemmas.Reward
+import CkbVerif.Lemmas.RewardWalk
 
 /-!
 # C06 — rewards, fee split and DAO field follow the issuance rules; nothing else mints
@@ -138,21 +139,12 @@ theorem proposal_reward_eq_sum (w : Win) (r : Ratio) (chain : List Blk) (P t v :
     (h : proposalReward w r chain P t = some v) : v = paidSum r (paidList w chain P t) := by
   have := sumShares_some h; omega
 
-/- Full statement aimed at (DESIGN.md `proposal_reward_eq_spec`), NOT proved here:
-   for `t ≥ 2`, on a chain that commits each id at most once,
-     paidList w chain (t + w.far) t  =  the commits `(c, id, fee)` with `c ∈ [t + w.close, t + w.far]`,
-       `id ∈ props t` and `t = min {q ∈ [max (c − w.far) 1, c − w.close] | id ∈ props q}`
-   (as multisets), hence `proposal_reward = Σ ⌊fee·r⌋` over them.
-   Proved below: the *soundness* half (everything the walk pays is such a commit, with "earliest"
-   in the code's sense) and `proposer_share_paid_at_most_once`. Missing: the *completeness* half
-   (every such commit is paid) — checked only by the chain correspondence oracle
-   (`reward-proposal`), which also exposed that it is false for `t = 1`
-   (`block1_proposer_share_unpaid_witness`). -/
-
-/-- every fee whose proposer share goes to target `t` (finalised on top of parent `P`) belongs to
-a transaction committed in a block `c ≤ P` whose id `t` proposed (itself or an uncle), and no
-block the walk treats as an earlier proposer (`max (i − w_far) 1` for `c ≤ i < P`) proposed it -/
-theorem proposal_reward_eq_spec_partial (w : Win) (chain : List Blk) (P t : Nat) (e : Paid)
+/-- soundness for every parent `P` and target `t` (including `t = 1`): every fee whose proposer
+share goes to `t` belongs to a transaction committed in a block `c ≤ P` whose id `t` proposed
+(itself or an uncle), and no block the walk treats as an earlier proposer
+(`max (i − w_far) 1` for `c ≤ i < P`) proposed it. (Corollary-level; the exact statement for
+`t ≥ 2` is `proposal_reward_eq_spec` below.) -/
+theorem paid_fee_is_earliest_proposed (w : Win) (chain : List Blk) (P t : Nat) (e : Paid)
     (he : e ∈ paidList w chain P t) :
     e.id ∈ (blkAt chain t).props ∧ e.blk ≤ P ∧
     (e.id, e.fee) ∈ (blkAt chain e.blk).commitIds.zip (blkAt chain e.blk).fees ∧
@@ -205,6 +197,174 @@ theorem block1_proposer_share_unpaid_witness :
     (blkAt (demoChain 1 3) 1).props = [7] ∧ (blkAt (demoChain 1 3) 3).commitIds = [7] ∧
     (∀ n, n < 14 → n ≠ 1 → (blkAt (demoChain 1 3) n).props = []) ∧
     proposalReward defaultWin proposerRatio (demoChain 1 3) 11 1 = some 0 := by decide
+
+/-! ### the walk is exactly the specification (targets `t ≥ 2`)
+
+`specPaid w chain t` (`Model/Reward.lean`) is declarative: the commits `(c, id, fee)` of blocks
+`c ∈ [t + w_close, t + w_far]` with `id ∈ proposals(t)` (own + uncles') such that no block in
+`[max (c − w_far) 1, t)` proposed `id` — i.e. `t` is the earliest proposer of `id` inside `c`'s
+proposal window (genesis excluded) — listed from the latest block down, block order inside. -/
+
+/-- the specification as a predicate -/
+theorem spec_paid_iff (w : Win) (chain : List Blk) (t : Nat) (hw : w.close ≤ w.far) (e : Paid) :
+    e ∈ specPaid w chain t ↔
+      t + w.close ≤ e.blk ∧ e.blk ≤ t + w.far ∧
+      (e.id, e.fee) ∈ (blkAt chain e.blk).commitIds.zip (blkAt chain e.blk).fees ∧
+      e.id ∈ (blkAt chain t).props ∧
+      ∀ q, max (e.blk - w.far) 1 ≤ q → q < t → e.id ∉ (blkAt chain q).props :=
+  mem_specPaid_iff w chain t hw e
+
+/-- **`proposal_reward` = specification** (soundness and completeness, as equal lists in the
+order the code adds them). When block `t + w_far + 1` finalises target `t ≥ 2`, the fees whose
+proposer share it pays are exactly `specPaid w chain t`, and the reward is the sum of `⌊fee·r⌋`
+over them.
+
+Hypotheses, all needed:
+* `2 ≤ t`: for `t = 1` the statement is false — the walk's `max (index − w_far) 1` clamps to the
+  target itself (`block1_proposer_share_unpaid_witness`); what holds for `t = 1` is
+  `block1_pays_only_at_parent`. `t = 0` is never a real finalisation (`RewardVerifier` exempts it).
+* `w_close ≤ w_far` (`ProposalWindow::length` underflows otherwise).
+* ids are committed at most once in the blocks the walk visits (`hnd`: not twice in a block,
+  `hdisj`: not in two blocks): the code removes an id from `target_proposals` at the first
+  commit it meets (walking backwards), so a second commit of the same id would be specified but
+  not paid; every valid chain satisfies this (a transaction is committed once).
+No hypothesis on the chain's length or shape is needed: missing blocks read as empty. -/
+theorem proposal_reward_eq_spec (w : Win) (chain : List Blk) (t : Nat) (ht : 2 ≤ t)
+    (hw : w.close ≤ w.far)
+    (hnd : ∀ c, t + w.close ≤ c → c ≤ t + w.far → (blkAt chain c).commitIds.Nodup)
+    (hdisj : ∀ c₁ c₂, t + w.close ≤ c₁ → c₁ < c₂ → c₂ ≤ t + w.far →
+      ∀ id ∈ (blkAt chain c₁).commitIds, id ∉ (blkAt chain c₂).commitIds) :
+    finalizeTarget w (t + w.far + 1) = some t ∧
+    paidList w chain (t + w.far) t = specPaid w chain t ∧
+    ∀ r v, proposalReward w r chain (t + w.far) t = some v → v = paidSum r (specPaid w chain t) := by
+  have hl := paidList_eq_specPaid w chain t ht hw hnd hdisj
+  refine ⟨?_, hl, fun r v hv => ?_⟩
+  · simp [finalizeTarget, finalizationDelay, CkbVerif.Gen.Reward.FINALIZATION_DELAY_EXTRA]
+  · rw [← hl]; exact proposal_reward_eq_sum w r chain _ t v hv
+
+/-- non-vacuity: window (2,10), target 3. Block 2 proposes id 5; block 3 proposes 7 itself, 8
+through an uncle (the model's `props` is the union) and re-proposes 5; block 4 re-proposes 7;
+block 5 commits 7 (fee 100); block 6 commits 8 (fee 33) and 5 (fee 50). Block 14 finalises
+target 3: it is paid for 8 and 7 (13 + 40 = 53), not for 5 (block 2 was earlier). -/
+def demoChain2 : List Blk :=
+  [⟨[], [], []⟩, ⟨[], [], []⟩, ⟨[5], [], []⟩, ⟨[7, 8, 5], [], []⟩, ⟨[7], [], []⟩,
+   ⟨[], [7], [100]⟩, ⟨[], [8, 5], [33, 50]⟩, ⟨[], [], []⟩, ⟨[], [], []⟩, ⟨[], [], []⟩,
+   ⟨[], [], []⟩, ⟨[], [], []⟩, ⟨[], [], []⟩, ⟨[], [], []⟩]
+
+example : paidList defaultWin demoChain2 13 3 = specPaid defaultWin demoChain2 3 ∧
+    specPaid defaultWin demoChain2 3 = [⟨6, 8, 33⟩, ⟨5, 7, 100⟩] ∧
+    proposalReward defaultWin proposerRatio demoChain2 13 3 = some 53 := by
+  have hnd : ∀ c, c ≤ 13 → (blkAt demoChain2 c).commitIds.Nodup := by decide
+  have hdisj : ∀ c₂, c₂ ≤ 13 → ∀ c₁, c₁ < c₂ →
+      ∀ id ∈ (blkAt demoChain2 c₁).commitIds, id ∉ (blkAt demoChain2 c₂).commitIds := by decide
+  refine ⟨(proposal_reward_eq_spec defaultWin demoChain2 3 (by decide) (by decide)
+    (fun c _ h2 => hnd c h2) (fun c₁ c₂ _ h2 h3 => hdisj c₂ h3 c₁ h2)).2.1, by decide, by decide⟩
+
+/-- what is true for target block 1: the only commits whose proposer share it can receive are
+those in block `1 + w_far` (the parent of the finalising block) -/
+theorem block1_pays_only_at_parent (w : Win) (chain : List Blk) (e : Paid)
+    (he : e ∈ paidList w chain (1 + w.far) 1) : e.blk = 1 + w.far := by
+  obtain ⟨a, b, c, _⟩ := paidList_spec w chain _ _ e he
+  by_cases h : e.blk = 1 + w.far
+  · exact h
+  · exfalso
+    have := c e.blk (Nat.le_refl _) (by omega)
+    have hm : max (e.blk - w.far) 1 = 1 := by omega
+    rw [hm] at this
+    exact this a
+
+/-! ### exactly once under the two-phase commit rule -/
+
+/-- the two-phase rule (`proposedInWindow`: the id was proposed by a block in
+`[max (c − w_far) 1, c − w_close]`) gives every commit an earliest proposer in its window -/
+theorem earliest_proposer_exists (w : Win) (chain : List Blk) (c id : Nat)
+    (h : proposedInWindow w chain c id = true) :
+    ∃ t, isEarliestProposer w chain c id t = true ∧ 1 ≤ t ∧ t + w.close ≤ c ∧ c ≤ t + w.far := by
+  obtain ⟨t, ht⟩ := earliest_exists w chain c id h
+  obtain ⟨h1, h2, _, _⟩ := (isEarliestProposer_iff _ _ _ _ _).1 ht
+  exact ⟨t, ht, by omega, by omega, by omega⟩
+
+/-- **each committed transaction's proposer share is paid exactly once**: on a chain that commits
+every id at most once, a commit `(c, id, fee)` whose earliest in-window proposer is `t ≥ 2`
+(it exists under the two-phase rule: `earliest_proposer_exists`) is
+(a) paid when block `t + w_far + 1` finalises `t` — provided the chain reaches that height, which
+    is the only role of the chain's length —,
+(b) listed there once (no second entry with the same `(block, id)`), and
+(c) paid by no other finalising block.
+With `shares_sum_to_fee`, proposer share + committer share (paid once, in `txs_fees` of target
+`c`: `txs_fees_eq_sum`) = the fee: each fee is distributed exactly once.
+Exception (stated separately, `block1_proposer_share_lost`): earliest proposer = block 1. -/
+theorem proposer_share_paid_exactly_once (w : Win) (chain : List Blk) (hw : w.close ≤ w.far)
+    (hnd : ∀ c, (blkAt chain c).commitIds.Nodup)
+    (hdisj : ∀ c₁ c₂, c₁ < c₂ → ∀ id ∈ (blkAt chain c₁).commitIds, id ∉ (blkAt chain c₂).commitIds)
+    (c id fee t : Nat)
+    (hcommit : (id, fee) ∈ (blkAt chain c).commitIds.zip (blkAt chain c).fees)
+    (he : isEarliestProposer w chain c id t = true) (ht : 2 ≤ t) :
+    (⟨c, id, fee⟩ : Paid) ∈ paidList w chain (t + w.far) t ∧
+    (paidList w chain (t + w.far) t).Pairwise (fun a b => ¬ (a.blk = b.blk ∧ a.id = b.id)) ∧
+    ∀ P' e', finalizationDelay w < P' + 1 →
+      e' ∈ paidList w chain P' (P' + 1 - finalizationDelay w) → e'.blk = c → e'.id = id →
+      P' = t + w.far := by
+  have hl := paidList_eq_specPaid w chain t ht hw (fun c _ _ => hnd c)
+    (fun c₁ c₂ _ h _ => hdisj c₁ c₂ h)
+  have hmem : (⟨c, id, fee⟩ : Paid) ∈ paidList w chain (t + w.far) t := by
+    rw [hl]; exact mem_specPaid_of_earliest w chain c id fee t (by omega) hw hcommit he
+  refine ⟨hmem, by rw [hl]; exact specPaid_keys_distinct w chain t hnd, ?_⟩
+  intro P' e' hf he' hb hi
+  have hd : finalizationDelay w = w.far + 1 := by
+    simp [finalizationDelay, CkbVerif.Gen.Reward.FINALIZATION_DELAY_EXTRA]
+  have hmem' : (⟨c, id, fee⟩ : Paid) ∈
+      paidList w chain (t + w.far) (t + w.far + 1 - finalizationDelay w) := by
+    have : t + w.far + 1 - finalizationDelay w = t := by omega
+    rw [this]; exact hmem
+  exact proposer_share_paid_at_most_once w chain P' (t + w.far) e' ⟨c, id, fee⟩ hf (by omega)
+    he' hmem' hb hi
+
+/-- the exception: when the earliest in-window proposer of a commit is block 1 and the commit is
+not in block `1 + w_far`, **no** finalising block pays its proposer share (the share is never
+issued — the deviation witnessed by `block1_proposer_share_unpaid_witness`) -/
+theorem block1_proposer_share_lost (w : Win) (chain : List Blk) (c id : Nat)
+    (he : isEarliestProposer w chain c id 1 = true) (hc : c ≠ 1 + w.far)
+    (P' : Nat) (e' : Paid) (hf : finalizationDelay w < P' + 1)
+    (he' : e' ∈ paidList w chain P' (P' + 1 - finalizationDelay w))
+    (hb : e'.blk = c) (hi : e'.id = id) : False := by
+  have hd : finalizationDelay w = w.far + 1 := by
+    simp [finalizationDelay, CkbVerif.Gen.Reward.FINALIZATION_DELAY_EXTRA]
+  obtain ⟨h1, h2, h3, _⟩ := (isEarliestProposer_iff _ _ _ _ _).1 he
+  obtain ⟨a, b, cnd, _⟩ := paidList_spec w chain _ _ e' he'
+  rw [hd] at hf he'
+  by_cases hP : P' = 1 + w.far
+  · subst hP
+    have ht : 1 + w.far + 1 - (w.far + 1) = 1 := by omega
+    rw [ht] at he'
+    have := block1_pays_only_at_parent w chain e' he'
+    omega
+  · have := cnd c (by omega) (by omega)
+    have hm : max (c - w.far) 1 = 1 := by omega
+    rw [hm, hi] at this
+    exact this h3
+
+/-- each fee is distributed exactly once: the proposer share of a commit (paid once, at the
+finalisation of its earliest proposer `t ≥ 2`) and its committer share add up to the fee -/
+theorem fee_distributed_exactly_once (w : Win) (r : Ratio) (chain : List Blk) (hw : w.close ≤ w.far)
+    (hnd : ∀ c, (blkAt chain c).commitIds.Nodup)
+    (hdisj : ∀ c₁ c₂, c₁ < c₂ → ∀ id ∈ (blkAt chain c₁).commitIds, id ∉ (blkAt chain c₂).commitIds)
+    (c id fee t p m : Nat)
+    (hcommit : (id, fee) ∈ (blkAt chain c).commitIds.zip (blkAt chain c).fees)
+    (he : isEarliestProposer w chain c id t = true) (ht : 2 ≤ t)
+    (hp : proposerShare r fee = some p) (hm : committerShare r fee = some m) :
+    p + m = fee ∧ (⟨c, id, fee⟩ : Paid) ∈ paidList w chain (t + w.far) t ∧
+    ∀ P' e', finalizationDelay w < P' + 1 →
+      e' ∈ paidList w chain P' (P' + 1 - finalizationDelay w) → e'.blk = c → e'.id = id →
+      P' = t + w.far := by
+  obtain ⟨a, _, b⟩ := proposer_share_paid_exactly_once w chain hw hnd hdisj c id fee t hcommit he ht
+  exact ⟨shares_sum_to_fee r fee p m hp hm, a, b⟩
+
+example : isEarliestProposer defaultWin demoChain2 6 5 2 = true ∧
+    isEarliestProposer defaultWin demoChain2 5 7 3 = true ∧
+    isEarliestProposer defaultWin demoChain2 5 7 4 = false ∧
+    proposedInWindow defaultWin demoChain2 6 8 = true ∧
+    (⟨6, 5, 50⟩ : Paid) ∈ paidList defaultWin demoChain2 12 2 := by decide
 
 /-! ## the DAO field -/
 
